@@ -232,12 +232,16 @@ def r2(ctx):
                 for g in guards(s, st['blk'], transitive=False):
                     if g['cond'] is not None:
                         c = bb(g['cond'], ctx.an())
+                        if c[0] == 'call' and c[1].startswith('movegen::movegen::'):
+                            c = bb(inline_private(ctx, g['cond']), ctx.an())      # e.g. a private `fn is_used(&self, i) -> bool`
                         if c[0] in ('bbne', 'bbeq') and ('bb0',) in c[1:]:
                             gd = True
             if len(stores) == 2 and gd:
                 swaps += 1
         if swaps == 1:
             ctx.ok(R, 'partition: inside the second scan a used entry is exchanged (two stores) into the first unused slot', where(s.body))
+        elif not for_loops(s):
+            ctx.inconclusive(R, 'set_iterator_mask: the partition is not written with `for` loops (not analysed)')
         else:
             ctx.violation(R, SETMASK + ':swap', 'partition loop does not exchange used entries forward (found %d swap loops)' % swaps, where(s.body))
 
